@@ -3,6 +3,7 @@ module verifharness
 go 1.24.1
 
 require (
+	github.com/anishathalye/porcupine v1.3.0
 	github.com/evstack/ev-node v0.0.0
 	github.com/evstack/ev-node/apps/testapp v0.0.0
 	github.com/evstack/ev-node/core v0.0.0
@@ -11,10 +12,12 @@ require (
 	github.com/evstack/ev-node/sequencers/single v0.0.0
 	github.com/filecoin-project/go-jsonrpc v0.7.1
 	github.com/ipfs/go-datastore v0.8.2
+	github.com/ipfs/go-ds-badger4 v0.1.8
 	github.com/ipfs/go-log/v2 v2.6.0
 	github.com/libp2p/go-libp2p v0.41.1
 	github.com/spf13/cobra v1.9.1
 	github.com/spf13/pflag v1.0.6
+	github.com/spf13/viper v1.20.1
 	golang.org/x/crypto v0.40.0
 	google.golang.org/protobuf v1.36.6
 )
@@ -40,7 +43,6 @@ require (
 	github.com/gorilla/websocket v1.5.3 // indirect
 	github.com/hashicorp/golang-lru/v2 v2.0.7 // indirect
 	github.com/ipfs/go-cid v0.5.0 // indirect
-	github.com/ipfs/go-ds-badger4 v0.1.8 // indirect
 	github.com/klauspost/compress v1.18.0 // indirect
 	github.com/klauspost/cpuid/v2 v2.2.10 // indirect
 	github.com/libp2p/go-buffer-pool v0.1.0 // indirect
@@ -71,7 +73,6 @@ require (
 	github.com/spaolacci/murmur3 v1.1.0 // indirect
 	github.com/spf13/afero v1.12.0 // indirect
 	github.com/spf13/cast v1.7.1 // indirect
-	github.com/spf13/viper v1.20.1 // indirect
 	github.com/stretchr/objx v0.5.2 // indirect
 	github.com/stretchr/testify v1.10.0 // indirect
 	github.com/subosito/gotenv v1.6.0 // indirect
